@@ -76,8 +76,11 @@ def expand(task):
         before = mod.snapshot(ctx)
         out = outcome(fn, ctx, mod.normalise)
         problems = []
-        if out != fresh[name]:
-            problems.append(('result', fresh[name], out))
+        # the module may compute the expected outcome from the current world (after the call, so that the oracle's own
+        # calls cannot prepare anything for the implementation); default: the fresh-world outcome
+        want = mod.expected(name, ctx, fresh) if hasattr(mod, 'expected') else fresh[name]
+        if out != want:
+            problems.append(('result', want, out))
         after = mod.snapshot(ctx)
         if after != before:
             problems.append(('operand-mutated', before, after))
